@@ -1,3 +1,278 @@
-pub fn run(_cli: common::Cli) -> ! {
-    common::machinery("not built yet")
+//! C07: waiting players are kept alive; silent ones are timed out.
+//!
+//! Exhaustive over a timing alphabet under virtual time. The oracle is read off the
+//! timestamped wire log and the client's own echo log; it encodes the bounds of the statement
+//! (not the implementation's tick grid).
+use crate::sim::*;
+use common::refs::codec::Pkt;
+use common::{Cli, Report, Violation, par_for};
+use serde::{Deserialize, Serialize};
+use serde_json::{Value, json};
+use std::collections::HashSet;
+use std::sync::Mutex;
+use std::sync::atomic::{AtomicU64, Ordering};
+
+const PERIOD: Ms = 16_000;
+
+#[derive(Clone, Debug, Serialize, Deserialize, PartialEq)]
+pub struct Spec {
+    /// latency of discovery, filter, strategy (ms)
+    lat: [u64; 3],
+    /// Client Information is sent this long after Login Acknowledged was consumed
+    ci_after: u64,
+    /// prompt | delay-N | never | wrong-id | twice | prompt-first-N | delay-first-N-M
+    echo: String,
+    unsolicited_every: Option<u64>,
+    /// latency of the authentication service (login duration)
+    auth_ms: u64,
+    locale: String,
+}
+
+fn echo_of(s: &str) -> Echo {
+    let nums: Vec<u64> = s.split('-').filter_map(|p| p.parse().ok()).collect();
+    match s {
+        "prompt" => Echo::Prompt,
+        "never" => Echo::Never,
+        "wrong-id" => Echo::WrongId,
+        "twice" => Echo::Twice,
+        e if e.starts_with("delay-first-") => Echo::DelayFirst(nums[0] as usize, nums[1]),
+        e if e.starts_with("prompt-first-") => Echo::PromptFirst(nums[0] as usize),
+        e if e.starts_with("delay-") => Echo::Delay(nums[0]),
+        other => common::machinery(&format!("echo {other}")),
+    }
+}
+
+fn build(s: &Spec) -> Case {
+    let mut case = Case::default();
+    case.script = Login { locale: s.locale.clone(), client_info_after: s.ci_after, ..Default::default() }.steps();
+    case.adapters.disc_ms = s.lat[0];
+    case.adapters.filter_ms = s.lat[1];
+    case.adapters.strat_ms = s.lat[2];
+    case.adapters.auth_ms = s.auth_ms;
+    case.adapters.disc = DiscPlan::Targets(vec![TargetSpec::new("t7", "10.7.7.7:25577")]);
+    case.echo = echo_of(&s.echo);
+    case.unsolicited_every = s.unsolicited_every;
+    case.horizon_ms = 400_000;
+    case
+}
+
+fn timeout_text(locale: &str) -> Value {
+    // default tables of the harness: en / de, default locale en_US
+    let lang = if locale.starts_with("de") { "de" } else { "en" };
+    json!({"text": format!("timeout-{lang}")})
+}
+
+fn judge(s: &Spec, obs: &Obs) -> Vec<(String, String)> {
+    let mut v = vec![];
+    let mut bad = |k: &str, t: String| v.push((k.to_string(), t));
+    if let RunResult::Panic(p) = &obs.result {
+        bad("panic", p.clone());
+        return v;
+    }
+    if obs.garbled.is_some() || obs.has("Unknown") || obs.partial_tail > 0 {
+        bad("undecodable-clientbound", format!("{:?} {:?}", obs.garbled, obs.kinds()));
+        return v;
+    }
+    // script steps: 0 handshake, 1 login start, 2 session cookie, 3 enc response, 4 login ack, 5 client info
+    let (Some(t_ack), t_ci) = (obs.step_times.get(4).copied(), obs.step_times.get(5).copied()) else {
+        bad("machinery:login-did-not-complete", format!("steps {:?} result {:?}", obs.step_times, obs.result));
+        return v;
+    };
+    let kas: Vec<(Ms, u64)> = obs.packets.iter().filter_map(|(t, p)| if let Pkt::KeepAlive { id } = p { Some((*t, *id)) } else { None }).collect();
+    let disconnect: Option<(Ms, Value)> = obs.packets.iter().find_map(|(t, p)| if let Pkt::ConfDisconnect { reason } = p { Some((*t, reason.clone())) } else { None });
+    let transfer: Option<(Ms, String, i32)> = obs.packets.iter().find_map(|(t, p)| if let Pkt::Transfer { host, port } = p { Some((*t, host.clone(), *port)) } else { None });
+    let end = obs.end_ms;
+
+    // K1: a Keep Alive at least every 16 s while in the configuration phase
+    let mut marks: Vec<Ms> = vec![t_ack];
+    marks.extend(kas.iter().map(|k| k.0));
+    marks.push(end);
+    for w in marks.windows(2) {
+        if w[1] > w[0] + PERIOD {
+            bad("keep-alive-gap", format!("no Keep Alive between {} ms and {} ms (configuration phase entered at {t_ack} ms, ended at {end} ms); keep-alives at {:?}", w[0], w[1], kas.iter().map(|k| k.0).collect::<Vec<_>>()));
+            break;
+        }
+    }
+    // K2: never a second Keep Alive before the previous one was echoed
+    for w in kas.windows(2) {
+        let echoed = obs.echo_log.iter().any(|(t, id)| *id == w[0].1 && *t >= w[0].0 && *t <= w[1].0);
+        if !echoed {
+            bad("second-keep-alive-while-unechoed", format!("Keep Alive at {} ms was never echoed, yet another one was sent at {} ms", w[0].0, w[1].0));
+            break;
+        }
+    }
+    // a Keep Alive is only legal in the configuration phase
+    if let Some(k) = kas.iter().find(|k| k.0 < t_ack) {
+        bad("keep-alive-before-configuration", format!("Keep Alive at {} ms, Login Acknowledged at {t_ack} ms", k.0));
+    }
+    // the time routing completes if nothing interferes
+    let t_done = t_ci.map(|t| t + s.lat.iter().sum::<u64>());
+
+    match &disconnect {
+        Some((x, reason)) => {
+            // K3: only a client that left the last Keep Alive unechoed may be dropped
+            match kas.iter().rev().find(|k| k.0 <= *x) {
+                None => bad("timeout-disconnect-without-keep-alive", format!("Disconnect at {x} ms but no Keep Alive was ever sent")),
+                Some((sent, id)) => {
+                    let echoed_before = obs.echo_log.iter().any(|(t, i)| i == id && *t >= *sent && *t < *x);
+                    let echoed_at = obs.echo_log.iter().any(|(t, i)| i == id && *t == *x);
+                    if echoed_before {
+                        bad("compliant-client-dropped", format!("Keep Alive of {sent} ms was echoed before {x} ms, yet the client was disconnected at {x} ms; echoes {:?}", obs.echo_log));
+                    } else if !echoed_at && *x > sent + PERIOD {
+                        bad("timeout-too-late", format!("Keep Alive of {sent} ms unechoed; Disconnect only at {x} ms"));
+                    }
+                }
+            }
+            // the Disconnect carries the timeout message (client locale once it is known)
+            let known = t_ci.is_some_and(|t| t < *x);
+            let at_same_instant = t_ci == Some(*x);
+            let ok = if at_same_instant { *reason == timeout_text(&s.locale) || *reason == timeout_text("en") } else if known { *reason == timeout_text(&s.locale) } else { *reason == timeout_text("en") };
+            if !ok {
+                bad("timeout-disconnect-text", format!("Disconnect text {reason} for client locale {:?} (Client Information at {t_ci:?} ms, Disconnect at {x} ms)", s.locale));
+            }
+            if !matches!(obs.packets.last(), Some((_, Pkt::ConfDisconnect { .. }))) || obs.count("ConfDisconnect") != 1 {
+                bad("packet-after-timeout-disconnect", format!("{:?}", obs.kinds()));
+            }
+            if !matches!(&obs.result, RunResult::Err { kind, .. } if kind == "MissedKeepAlive") {
+                bad("timeout-result", format!("{:?}", obs.result));
+            }
+            if transfer.is_some() {
+                bad("transfer-and-timeout", format!("{:?}", obs.kinds()));
+            }
+        }
+        None => {
+            // K4: a client that leaves a Keep Alive unechoed until the next one is due must be dropped
+            for (sent, id) in &kas {
+                let echoed = obs.echo_log.iter().any(|(t, i)| i == id && *t >= *sent && *t <= sent + PERIOD);
+                if !echoed && end > sent + PERIOD {
+                    bad("silent-client-not-dropped", format!("Keep Alive of {sent} ms was not echoed by {} ms, the connection went on until {end} ms; echoes {:?}", sent + PERIOD, obs.echo_log));
+                    break;
+                }
+            }
+            // K5: not dropped => transferred to the scripted target as soon as routing completes
+            match (&transfer, t_done) {
+                (Some((t, host, port)), Some(done)) => {
+                    if host != "10.7.7.7" || *port != 25577 {
+                        bad("transfer-target", format!("{host}:{port}"));
+                    }
+                    if *t != done {
+                        bad("transfer-not-at-routing-completion", format!("routing completes at {done} ms, Transfer sent at {t} ms"));
+                    }
+                    if obs.result != RunResult::Ok {
+                        bad("transfer-result", format!("{:?}", obs.result));
+                    }
+                }
+                (None, _) => bad("neither-transferred-nor-timed-out", format!("result {:?} at {end} ms; packets {:?}", obs.result, obs.kinds())),
+                (Some(_), None) => bad("transfer-without-client-information", "Transfer although Client Information was never sent".into()),
+            }
+        }
+    }
+    v
+}
+
+fn specs(thorough: bool) -> Vec<Spec> {
+    let lats: [u64; 7] = [0, 8_000, 15_999, 16_000, 16_001, 33_000, 50_000];
+    let cis: [u64; 5] = [0, 10_000, 16_000, 20_000, 40_000];
+    let mut echoes: Vec<&str> = vec!["prompt", "delay-1000", "delay-15000", "delay-15999", "delay-16000", "delay-16001", "delay-17000", "never", "wrong-id", "twice", "prompt-first-1", "prompt-first-2", "delay-first-1-15000"];
+    if !thorough {
+        echoes = vec!["prompt", "delay-15000", "delay-15999", "delay-16001", "never", "wrong-id", "twice", "prompt-first-1"];
+    }
+    let mut v = vec![];
+    let mut triples: Vec<[u64; 3]> = vec![];
+    for a in lats {
+        for b in lats {
+            for c in lats {
+                let slow = [a, b, c].iter().filter(|x| **x > 0).count();
+                if thorough || slow <= 1 || (slow == 2 && [a, b, c].iter().all(|x| [0, 16_000, 33_000].contains(x))) {
+                    triples.push([a, b, c]);
+                }
+            }
+        }
+    }
+    for lat in &triples {
+        for ci in cis {
+            for e in &echoes {
+                for auth in [0u64, 20_000] {
+                    if !thorough && auth > 0 && lat.iter().sum::<u64>() > 33_000 {
+                        continue;
+                    }
+                    for uns in if thorough { vec![None, Some(5_000u64)] } else { vec![None] } {
+                        v.push(Spec { lat: *lat, ci_after: ci, echo: e.to_string(), unsolicited_every: uns, auth_ms: auth, locale: if ci % 20_000 == 0 { "de_de".into() } else { "en_us".into() } });
+                    }
+                }
+            }
+        }
+    }
+    if !thorough {
+        for e in ["prompt", "never", "delay-15000"] {
+            v.push(Spec { lat: [33_000, 0, 0], ci_after: 10_000, echo: e.into(), unsolicited_every: Some(5_000), auth_ms: 0, locale: "en_us".into() });
+        }
+    }
+    v
+}
+
+pub fn run(cli: Cli) -> ! {
+    let rep = Report::new("C07", cli.tier, "model_checking");
+    if let Some(case) = cli.replay.clone() {
+        let s: Spec = serde_json::from_value(case["spec"].clone()).unwrap_or_else(|e| common::machinery(&format!("bad replay: {e}")));
+        let (a, b) = (crate::sim::run(&build(&s)), crate::sim::run(&build(&s)));
+        let times = |o: &Obs| o.packets.iter().map(|(t, p)| (*t, p.kind())).collect::<Vec<_>>();
+        if times(&a) != times(&b) || a.result != b.result {
+            common::machinery("two replays of the same case differ");
+        }
+        println!("spec: {}", serde_json::to_string(&s).unwrap());
+        println!("clientbound: {:?}", times(&a));
+        println!("client keep-alives sent (time, id): {:?}", a.echo_log);
+        println!("script step times: {:?}; result {:?} at {} ms", a.step_times, a.result, a.end_ms);
+        for (k, t) in judge(&s, &a) {
+            rep.violation(Violation { key: k, text: t, replay: case.clone(), weight: 0 });
+        }
+        rep.set("states", json!(1));
+        rep.set("transitions", json!(a.packets.len().max(1)));
+        rep.set("traces_validated_against_impl", json!(1));
+        rep.finish();
+    }
+    let all = specs(cli.tier.thorough());
+    let distinct: Mutex<HashSet<String>> = Mutex::new(HashSet::new());
+    let (dropped, transferred, kept_alive) = (AtomicU64::new(0), AtomicU64::new(0), AtomicU64::new(0));
+    let transitions = AtomicU64::new(0);
+    par_for(all.len(), |i| {
+        let s = &all[i];
+        let obs = crate::sim::run(&build(s));
+        transitions.fetch_add(obs.packets.len() as u64 + 1, Ordering::Relaxed);
+        if obs.has("ConfDisconnect") {
+            dropped.fetch_add(1, Ordering::Relaxed);
+        }
+        if obs.has("Transfer") {
+            transferred.fetch_add(1, Ordering::Relaxed);
+        }
+        if obs.count("KeepAlive") >= 2 {
+            kept_alive.fetch_add(1, Ordering::Relaxed);
+        }
+        distinct.lock().unwrap().insert(format!("{:?}|{}", obs.packets.iter().map(|(t, p)| (*t, p.kind())).collect::<Vec<_>>(), obs.result.kind()));
+        for (k, t) in judge(s, &obs) {
+            rep.violation(Violation { key: k, text: format!("{t}; spec {}", serde_json::to_string(s).unwrap()), replay: json!({"spec": s}), weight: (s.lat.iter().sum::<u64>() + s.ci_after + s.auth_ms) / 1000 });
+        }
+    });
+    let d = distinct.lock().unwrap().len() as u64;
+    rep.require("runs ending in a timeout Disconnect", dropped.load(Ordering::Relaxed), 50);
+    rep.require("runs ending in a Transfer", transferred.load(Ordering::Relaxed), 50);
+    rep.require("runs with at least two Keep Alives", kept_alive.load(Ordering::Relaxed), 50);
+    rep.require("distinct timed traces", d, 50);
+    rep.set("states", json!(all.len()));
+    rep.set("transitions", json!(transitions.load(Ordering::Relaxed)));
+    rep.set("traces_validated_against_impl", json!(all.len()));
+    rep.set("evaluations", json!(all.len()));
+    rep.set("distinct_nontrivial", json!(d));
+    rep.set("timed_out", json!(dropped.load(Ordering::Relaxed)));
+    rep.set("transferred", json!(transferred.load(Ordering::Relaxed)));
+    rep.set("exhaustive", json!(true));
+    rep.set("rule", json!("product of adapter latencies {0,8,15.999,16,16.001,33,50 s}^3 (quick: at most one or two slow adapters), Client Information delay {0,10,16,20,40 s}, echo policy (prompt, delayed by d around the period, never, wrong id, duplicate, first-k-only, unsolicited every 5 s), login duration {0,20 s}; one connection each under virtual time; distinct_nontrivial = distinct timed clientbound traces"));
+    rep.sample(json!({"spec": all[0]}));
+    rep.sample(json!({"spec": Spec { lat: [33_000, 0, 0], ci_after: 0, echo: "delay-15999".into(), unsolicited_every: None, auth_ms: 0, locale: "en_us".into() }, "expect": "Keep Alive at 16 s and 32 s, Transfer at 33 s"}));
+    rep.sample(json!({"spec": Spec { lat: [50_000, 0, 0], ci_after: 0, echo: "wrong-id".into(), unsolicited_every: None, auth_ms: 0, locale: "de_de".into() }, "expect": "Keep Alive at 16 s, timeout Disconnect (German) at 32 s"}));
+    rep.assume("time is tokio's paused clock; real-valued time is represented by the +-1 ms neighbours of the period");
+    rep.assume("an echo emitted at exactly the instant the next Keep Alive is due, and routing completing at exactly that instant, are outside the statement and not judged");
+    rep.assume("'before the next one is due' is read off the observed log: a drop is only judged wrong if the echo was emitted strictly before the Disconnect; a silent client must be gone 16 s after the unechoed Keep Alive");
+    rep.finish()
 }
